@@ -540,13 +540,15 @@ def insertParamSorted (p : T) : List T → List T
 
 def sortParams (ps : List T) : List T := ps.foldr insertParamSorted []
 
+/-- `gen_inherent_impl_items` (helper_trait.rs): the prototype of an item of the first block; since /repo 2b7edb4 the
+    attributes of the item are copied onto the prototype (`#(#attrs)*`) -/
 def traitItemOfImplItem : T → Gen T
-  | .node "ImplItem::Const" [] [_, _, _, id, g, ty, _] =>
-      if g == emptyGenerics then .ok (.node "TraitItem::Const" [] [ignAttrs, id, emptyGenerics, ty, tNone]) else .unmodelled
-  | .node "ImplItem::Type" [] [_, _, _, id, g, _] =>
-      .ok (.node "TraitItem::Type" [] [ignAttrs, id, itemGenerics g, tNone, tList [], tNone])
-  | .node "ImplItem::Fn" [] [_, _, _, sig, _] =>
-      .ok (.node "TraitItem::Fn" [] [ignAttrs, sig, tNone, .node "Some" ["Semi"] []])
+  | .node "ImplItem::Const" [] [a, _, _, id, g, ty, _] =>
+      if g == emptyGenerics then .ok (.node "TraitItem::Const" [] [a, id, emptyGenerics, ty, tNone]) else .unmodelled
+  | .node "ImplItem::Type" [] [a, _, _, id, g, _] =>
+      .ok (.node "TraitItem::Type" [] [a, id, itemGenerics g, tNone, tList [], tNone])
+  | .node "ImplItem::Fn" [] [a, _, _, sig, _] =>
+      .ok (.node "TraitItem::Fn" [] [a, sig, tNone, .node "Some" ["Semi"] []])
   | _ => .panic
 
 /-- the self type's last-segment identifier when it can be re-parsed as a trait name (`trait #self_ty …`) -/
